@@ -277,7 +277,7 @@ def run_one(c, vals, np, om, override=None, tol=1e-9):
         if not ok:
             out['failed'].append({'kind': 'native-ensures', 'clause': cl})
     if raised is None:
-        for cl in c.ensures:
+        for cl in list(c.ensures) + list(getattr(c, 'ensures_check_only', ())):
             try:
                 ok = bool(eval(compile_clause(cl, pnames), env))
             except Exception as e:
